@@ -30,7 +30,7 @@ CONSTANTS
 
 DevNames == {"absFinalClamp", "dirFromSystemSpan", "keepRolledBackPiece", "frontInsert", "dedupByPosition",
              "noTrimOnFailure", "resetKeepsEvents", "commitBeforeAccept", "clampAdoptsDt", "recordStepTooShort", "perCallSuppression",
-             "bisectAfterTurn"}
+             "bisectAfterTurn", "landingStepCarriedOver"}
 ASSUME Dev \subseteq DevNames
 
 Abs(x) == IF x < 0 THEN -x ELSE x
@@ -69,7 +69,7 @@ Init ==
 (***************************************************************************)
 Frame(target, evOn, cbOn, nested) ==
     [target |-> target, dir |-> Sgn(target - Cur), pc |-> "loop", evOn |-> evOn, cbOn |-> cbOn, nested |-> nested,
-     a |-> Cur, b |-> Cur, final |-> FALSE, newDt |-> dt, terminated |-> FALSE, start |-> Len(rows), dtAtCall |-> 0,
+     a |-> Cur, b |-> Cur, final |-> FALSE, newDt |-> dt, terminated |-> FALSE, start |-> Len(rows), dtAtCall |-> 0, dtSaved |-> 0,
      ev0 |-> Len(events)]      \* ev0: events recorded before this call (duplicate suppression is per call, as in the code)
 
 Call(target, evOn, cbOn) ==
@@ -189,10 +189,11 @@ HandleEvents ==
                           ELSE /\ (Abs(d1) > Abs(root - f.a) => (root - f.a) % 2 = 0)
                                /\ d2 # 0
                                /\ dt' = d2
-                               /\ frames' = [frames EXCEPT ![Len(frames)] = [f EXCEPT !.terminated = TRUE, !.pc = "post"]]
+                               \* the step in force is remembered: the short steps of the landing call are not carried over
+                               /\ frames' = [frames EXCEPT ![Len(frames)] = [f EXCEPT !.terminated = TRUE, !.pc = "post", !.dtSaved = dt]]
                                        \o <<[target |-> root, dir |-> Sgn(root - f.a), pc |-> "loop", evOn |-> FALSE,
                                              cbOn |-> FALSE, nested |-> TRUE, a |-> f.a, b |-> f.a, final |-> FALSE,
-                                             newDt |-> d2, terminated |-> FALSE, start |-> Len(rows) - 1, dtAtCall |-> d2, ev0 |-> Len(events')]>>
+                                             newDt |-> d2, terminated |-> FALSE, start |-> Len(rows) - 1, dtAtCall |-> d2, dtSaved |-> 0, ev0 |-> Len(events')]>>
               ELSE /\ frames' = [frames EXCEPT ![Len(frames)] = [f EXCEPT !.pc = "post"]]
                    /\ UNCHANGED <<rows, sol, dt>>
     /\ UNCHANGED <<t0, tf, dt0, status, ncalls>> /\ last' = "HandleEvents"
@@ -220,10 +221,15 @@ Return ==
         IF f.nested
         THEN /\ frames' = Front(frames)
              /\ status' = "event"
+             \* back in the call that found the event: the step in force is what it was before the landing call (stored through the dt
+             \* setter).  Deviation "landingStepCarriedOver": the code before repair 35 kept the landing call's short step, which a
+             \* clamped last step then never replaced.
+             /\ dt' = IF "landingStepCarriedOver" \in Dev THEN dt ELSE FixDir(frames[Len(frames) - 1].dtSaved, tf, t0)
         ELSE /\ frames' = << >>
              \* "done" is only written over "notrun"/"done": an earlier stop at an event or an earlier failure stays reported
              /\ status' = IF f.terminated THEN "event" ELSE IF status \in {"event", "failed"} THEN status ELSE "done"
-    /\ UNCHANGED <<rows, t0, tf, dt, dt0, sol, events, ncalls>> /\ last' = "Return"
+             /\ dt' = dt
+    /\ UNCHANGED <<rows, t0, tf, dt0, sol, events, ncalls>> /\ last' = "Return"
 
 (***************************************************************************)
 (* a user callable raises: every loop position is a crash point             *)
@@ -285,7 +291,7 @@ FixedStepsEqualDt ==
 
 (* C04: with a fixed-step family and no callback the step size in force never changes between steps of a call
    (only the prologue of a call may halve it when it exceeds the span) *)
-FixedDtKeptBetweenSteps == [][(last' = "Post" /\ ~ADAPTIVE /\ ~Top.cbOn /\ ~Top.evOn) => Abs(dt') = Abs(Top.dtAtCall)]_vars
+FixedDtKeptBetweenSteps == [][(last' = "Post" /\ ~ADAPTIVE /\ ~Top.cbOn /\ ~Top.nested) => Abs(dt') = Abs(Top.dtAtCall)]_vars
 
 (* C06 / C09 / C12: dense output is exactly the recorded steps, in order *)
 PiecesAreSteps ==
